@@ -195,3 +195,26 @@ func c20NoPartialAccountFile(s *vFSState, old, newDoc []byte) {
 		}
 	}
 }
+
+// Start-up re-saves account files that are still in the old format. A kill at any point of that re-save leaves the
+// account file as the complete old or the complete new document, and the directory loadable.
+func VH_C20_StartupMigration_sym() {
+	vfsReset()
+	old := append([]byte("Login: bob\n"), vBytesN("old_format_rest", 12)...)
+	vfs.put("/cfg/Users/bob.yaml", old)
+	initial := vfs.clone()
+	am, err := NewYAMLAccountManager("/cfg/Users")
+	// (a document that happens to contain the new format's marker line is simply not re-saved)
+	vAssert("start_ok", err == nil && am != nil)
+	if len(vfsLog) == 0 {
+		return
+	}
+	newDoc := c20LastWritten()
+	s := c20Crash(initial)
+	c20NoPartialAccountFile(s, old, newDoc)
+	i := s.find("/cfg/Users/bob.yaml")
+	vAssert("migrated_account_file_exists_at_crash", i >= 0)
+	if i >= 0 {
+		vAssertEqBytesEither("migrated_account_old_or_new_at_crash", s.data[i], old, newDoc)
+	}
+}
